@@ -191,7 +191,8 @@ JudgeParse(st, q, n, e, cfg) ==
         res("", <<"StalePauseStall">>, <<>>)
     ELSE IF fin = "reject" /\ ~rej /\ st.over /\ st.between THEN res("", <<"LimitByCallPosition">>, <<>>)
     ELSE IF fin = "reject" /\ ~rej /\ PendingOver(st, q, n, e, cfg) /\ mc = "" THEN res("", <<>>, <<"OverLimitInLastRead">>)
-    ELSE IF fin = "reject" /\ ~rej /\ st.reason \in {"ChunkDataCRCRLF", "TrailerLeadingCR"} THEN res("", <<"LaxChunkCRSegDependent">>, <<>>)
+    ELSE IF fin = "reject" /\ ~rej /\ st.reason \in {"ChunkDataCRCRLF", "TrailerLeadingCR"} /\ ~PendingReject(st, q, n)
+        THEN res("", <<"LaxChunkCRSegDependent">>, <<>>)
     ELSE IF fin = "reject" /\ ~rej /\ ~PendingReject(st, q, n) /\ ~(st.over /\ st.between) THEN
         res(IF st.over THEN "AcceptedOverLimit" ELSE "AcceptedMalformed", <<>>, <<st.reason>>)
     ELSE IF mc # "" THEN
